@@ -154,16 +154,9 @@ func runABI(e *core.Env, prop string) error {
 				verdict := "bounded"
 				if out == "panic" || out == "overread" || out == "timeout" {
 					verdict = out
-				} else {
-					bound := 1
-					for d := 0; d < max(depth, 1); d++ {
-						bound *= len(data)/32 + 2
-					}
-					if rows > bound {
-						verdict = fmt.Sprintf("rows=%d>bound=%d", rows, bound)
-					}
 				}
-				e.Add(core.Case{Impl: verdict, Spec: "bounded", Key: fmt.Sprintf("c10 %s %s %d", ec.desc, core.Hex(data), capx), Nontrivial: hostile && nsel > 0,
+				e.Add(core.Case{Impl: verdict, Spec: "bounded", Oracle: fmt.Sprintf("c10rows %s %d %d", ec.desc, len(data), rows),
+					Key: fmt.Sprintf("c10 %s %s %d", ec.desc, core.Hex(data), capx), Nontrivial: hostile && nsel > 0,
 					Tags: []string{"c10-oracle", tag, "impl:" + strings.SplitN(out, " ", 2)[0]}, Detail: map[string]any{"desc": ec.desc, "event": ev, "data": core.Hex(data), "capx": capx}})
 			}
 			return out
